@@ -10,6 +10,7 @@ CONSTANTS
     ReadVariant = "tail"
     Emit = "none"
     Regs = {}
+    InitMem = "pattern"
     DisVariant = "raw"
 SPECIFICATION SpecDis
 VIEW View
